@@ -22,7 +22,7 @@ SKIP = {
 # the every-change subset: words with index / size / shift / offset arithmetic that are decided within the quick path
 # budget of 1000 paths (the other candidates - nth slice get insert bits bytes int uint u8 float open-bitstr emit ... - need
 # more and are decided, or listed as not covered, by the thorough tier, which runs every word of every loader)
-QUICK_WORDS = ["push", "remove", "length", "I", "J", "K", "/", "rem", "*", "bsl", "bsr", "abs", "neg", "round", ">int", "seek", ">b", "i16le", "bitstr-append"]
+QUICK_WORDS = ["nth", "emit", "push", "remove", "length", "I", "J", "K", "/", "rem", "*", "bsl", "bsr", "abs", "neg", "round", ">int", "seek", ">b", "i16le", "bitstr-append"]
 
 
 def cell_lines(m, names):
